@@ -123,7 +123,7 @@ JUDGES = {"seed": judge_seed, "pair": judge_pair}
 def shards(tier, seed):
     T = tier == "thorough"
     k = 16
-    return [{"name": "seeds-%d" % i, "count": (4000 if T else 500), "idx": i} for i in range(k)]
+    return [{"name": "seeds-%d" % i, "count": (12000 if T else 500), "idx": i} for i in range(k)]
 
 
 def _phrase(rng):
